@@ -22,6 +22,7 @@ EXPLANATION = (
     " Added after seed round 6: M8 verify_evidence gives an undrawn disjunction atom weight 0 when its group is closed and 1 when it is open, from the sampler's group record."
     " Added after seed round 7: M9 facts fixed by propagated evidence keep the remaining fields of their atom node (the group) and get weight 1.0 / 0.0 by truth value."
     " Added after seed round 8: M9/M10 evidence-fixed facts reach the sampler as (identifier, value) + the rest of their atom node, and a disjunction head that is ruled out lowers the remaining mass of its group by its own probability."
+    " Added after seed round 9: M11 add_evidence_atom hands the fields after the probability (group, *args) to add_atom unchanged."
 )
 TECHNIQUE = "static analysis: path-wise decision-table extraction (draw/accounting pairing)"
 LEVEL_TEXT = EXPLANATION
@@ -255,6 +256,7 @@ def run(repo, col):
                    construct="init_db: evidence fact fixed %s" % ("true" if truth else "false"), function="init_db")
     col.floor("M9.evidence_fact_rows", n9, 2)
     col.rule("M10", "a disjunction head that the evidence rules out takes its probability mass out of the group")
+    col.rule("M11", "add_evidence_atom forwards the fields of the fact (group included) to add_atom")
     sf = repo.cls(MOD, "SampledFormula")
     if shape9 == "weight":
         col.fail("M10", mod, loops9[0], "init_db replaces the probability of an evidence-fixed fact by 1.0 / 0.0 before the sampler sees it: for a head of an annotated disjunction that the "
@@ -276,6 +278,21 @@ def run(repo, col):
         col.decide("M10", mod, ea.node, okm, "add_evidence_atom lowers the remaining mass of the group by the excluded head's own probability",
                    "SampledFormula.add_evidence_atom must store groups[origin] = remaining - probability for a head of an annotated disjunction that the evidence fixes false",
                    construct="add_evidence_atom: remaining mass of the group", function="SampledFormula.add_evidence_atom")
+        # the remaining fields of the tuple are the fields of the fact (identifier, probability, group, ...) with the value inserted after the identifier: whatever add_evidence_atom
+        # does not decide itself it hands to add_atom field by field - a dropped group means add_atom no longer closes the group of a head the evidence fixes TRUE
+        fwd = [c_ for c_ in ast.walk(ea.node) if isinstance(c_, ast.Call) and norm(c_.func) == "self.add_atom"]
+        if not fwd:
+            raise AnalysisError("add_evidence_atom: no call of self.add_atom")
+        va = ea.node.args.vararg.arg if ea.node.args.vararg else None
+        for c_ in fwd:
+            got = [("*" + norm(a_.value)) if isinstance(a_, ast.Starred) else norm(a_) for a_ in c_.args]
+            want_tail = list(ea.params[4:]) + (["*" + va] if va else [])
+            okf = len(got) >= 2 and got[0] == ea.params[1] and got[2:] == want_tail and not c_.keywords
+            col.decide("M11", mod, c_, okf, "add_evidence_atom hands the fields of the fact to add_atom unchanged (group included)",
+                       "add_evidence_atom calls add_atom(%s): the fields after the probability must be passed on as they came (%s) - without the group add_atom does not close the "
+                       "annotated disjunction of a head that the evidence fixes true, and a second head of the same disjunction can be drawn true as well "
+                       "(0.3::a; 0.3::b; 0.4::c. 0.5::f. e :- b, f. evidence(e). then samples a with 0.30 and c with 0.40 instead of never)" % (", ".join(got), ", ".join(want_tail)),
+                       construct="add_evidence_atom: fields handed to add_atom", function="SampledFormula.add_evidence_atom")
         # consumers hand the tuples to add_evidence_atom
         nuse = 0
         for fn_ in ("sample", "estimate"):
